@@ -372,8 +372,9 @@ def m_reserve(it, S, t, callee, args):
 
 @model("<bytes::bytes_mut::BytesMut as bytes::buf::buf_mut::BufMut>::remaining_mut")
 def m_remaining_mut(it, S, t, callee, args):
-    # bytes 1.x: usize::MAX - len
-    R = ("call", it.site(), callee.get("path"))
+    # bytes 1.x (BufMut for BytesMut): usize::MAX - len ; a pure observer of the buffer
+    bufv = it.deref_value(S, args[0], 1)
+    R = ("model", "remaining_mut", bufv)
     set_ty(R, "usize")
     return R
 
